@@ -1161,6 +1161,23 @@ let codec_step (f : string list) : string =
            | Ok prog -> String.concat "," (List.map render prog)) in
        Printf.sprintf "ok %s %s steps=%s" (hex_or_empty nl)
          (match ni with None -> "none" | Some b -> hex_or_empty b) steps)
+  | ["migrate"; mv; iv; t; k; base; lhx; ihx] ->
+    (* Segment.Migrate on bytes: RecoverCrash.migrate_prog run on the files (rrun), and its steps in the words of the FS tap *)
+    let p = params_of_toks t k in
+    let b = bytes_of_hex lhx in
+    (match migrate_prog crc32c fnv64a p (z_of_string base) (ver_of mv) (ver_of iv) b with
+     | Err e -> err e
+     | Ok prog ->
+       let fin = rrun { rlog = b; rrtmp = None; ridx = opt_hex ihx; ritmp = None } prog in
+       let fname = function RfLog -> "log" | RfRtmp -> "rtmp" | RfIdx -> "idx" | RfItmp -> "itmp" in
+       let render = function
+         | RRemove f -> "remove:" ^ fname f
+         | RCreate (f, hdr) -> Printf.sprintf "create:%s:%d" (fname f) (List.length hdr)
+         | RWrite (f, bs) -> Printf.sprintf "write:%s:%d" (fname f) (List.length bs)
+         | RFsync f -> "fsync:" ^ fname f
+         | RRename (a, b) -> Printf.sprintf "rename:%s>%s" (fname a) (fname b) in
+       Printf.sprintf "ok %s %s steps=%s" (hex_or_empty fin.rlog)
+         (match fin.ridx with None -> "none" | Some x -> hex_or_empty x) (String.concat "," (List.map render prog)))
   | "mkseg" :: v :: iv :: t :: k :: _base :: ms ->
     (* a clean segment: log bytes and the derived index bytes *)
     let v = ver_of v and p = params_of_toks t k in
